@@ -184,6 +184,43 @@ pub fn lll_shapes(s: &mut Src) -> R {
     Ok(())
 }
 
+/// C10, Hermite clause over Z[i] (BOUNDED, sampled): lll_hnf over GaussInt<BigInt> on m x n matrices, m, n in 0..=3, components |x| <= 4.
+pub fn hnf_gauss_shapes(s: &mut Src) -> R {
+    use yui_matrix::MatTrait;
+    use yui_matrix::dense::lll::lll_hnf;
+    use yui::{GaussInt, Ring};
+    use num_bigint::BigInt;
+    use num_traits::{Zero, One};
+    type G = GaussInt<BigInt>;
+    let (m, n) = (s.small(0, 3) as usize, s.small(0, 3) as usize);
+    let mut e: Vec<(i64, i64)> = vec![];
+    for _ in 0..9 { let (a, b) = (s.small(-6, 6), s.small(-6, 6)); e.push((if a.abs() > 4 { 0 } else { a }, if b.abs() > 4 { 0 } else { b })); }
+    reach!();
+    let g = |(a, b): (i64, i64)| G::new(BigInt::from(a), BigInt::from(b));
+    let a = Mat::from_data((m, n), (0..m).flat_map(|i| (0..n).map(move |j| (i, j))).map(|(i, j)| g(e[i * 3 + j])).collect::<Vec<_>>());
+    let (h, p, pinv) = lll_hnf(&a, [true, true]);
+    let (p, pinv) = (p.unwrap(), pinv.unwrap());
+    ob!(h.shape() == (m, n), "lll_hnf<Z[i]>::shape");
+    ob!(&p * &a == h, "lll_hnf<Z[i]>::H==P.A");
+    ob!(&p * &pinv == Mat::id(m) && &pinv * &p == Mat::id(m), "lll_hnf<Z[i]>::P.Pinv==I==Pinv.P");
+    let norm = |x: &G| -> BigInt { let (re, im) = (x.left().clone(), x.right().clone()); &re * &re + &im * &im };
+    let mut last: Option<usize> = None; let mut seen_zero_row = false;
+    for i in 0..m {
+        match (0..n).find(|&j| !h[(i, j)].is_zero()) {
+            None => { seen_zero_row = true; }
+            Some(j) => {
+                ob!(!seen_zero_row, "lll_hnf<Z[i]>::zero-rows-last");
+                ob!(last.map(|l| l < j).unwrap_or(true), "lll_hnf<Z[i]>::pivot-columns-strictly-increase");
+                ob!(h[(i, j)].normalizing_unit().is_one(), "lll_hnf<Z[i]>::pivots-normalised");
+                for i2 in i + 1..m { ob!(h[(i2, j)].is_zero(), "lll_hnf<Z[i]>::zeros-below-a-pivot"); }
+                for i2 in 0..i { ob!(norm(&h[(i2, j)]) < norm(&h[(i, j)]), "lll_hnf<Z[i]>::entries-above-a-pivot-have-smaller-norm"); }
+                last = Some(j);
+            }
+        }
+    }
+    Ok(())
+}
+
 /// the same over Z[i] (units other than +-1 exercise the inverse bookkeeping): 2x2, small entries
 pub fn snf_gauss_small(s: &mut Src) -> R {
     use yui::GaussInt;
@@ -542,4 +579,4 @@ pub fn snf_mat_ops(s: &mut Src) -> R {
     }
     Ok(())
 }
-crate::harness_table!(SNF: snf_small [unwind 4], snf_gauss_small [unwind 4], trans_small [unwind 4], lll_small [unwind 4], snf_mat_ops [unwind 4], lll_rows45 [unwind 4], spmat_ops_small [unwind 4], spvec_mat_ops_small [unwind 4], snf_shapes [unwind 4], hnf_shapes [unwind 4], snf_poly_ff5 [unwind 4], lll_shapes [unwind 4]);
+crate::harness_table!(SNF: snf_small [unwind 4], snf_gauss_small [unwind 4], trans_small [unwind 4], lll_small [unwind 4], snf_mat_ops [unwind 4], lll_rows45 [unwind 4], spmat_ops_small [unwind 4], spvec_mat_ops_small [unwind 4], snf_shapes [unwind 4], hnf_shapes [unwind 4], snf_poly_ff5 [unwind 4], lll_shapes [unwind 4], hnf_gauss_shapes [unwind 4]);
